@@ -39,6 +39,14 @@ import (
 
 const prop = "C15"
 
+// sigBoundChildWindow names a genuine defect found by this check (see proposed_fix_1.diff):
+// deleter.deleteBoundChildren deletes a bound child's storage before the child has any
+// tombstone, so in the window between TreeManager.DeleteTree(child) and state.Delete(child) a
+// head update / put / fetch recreates it. While known_findings.json lists the signature as
+// "known", interrupts placed AFTER a call-out on an id whose status is still NotDeleted are
+// not performed (excluded by construction, counted in Outcome.Excluded).
+const sigBoundChildWindow = "bound-child-deleted-before-tombstoned"
+
 var outerT *testing.T
 
 var dbgLog = os.Getenv("VERIF_DEBUG") != ""
@@ -137,6 +145,7 @@ type checker struct {
 	scratchAt  int
 	nontrivial bool
 	intErr     error // violation found inside a worker call-out
+	excluded   string
 	steps      int
 }
 
@@ -603,6 +612,11 @@ func (c *checker) opWorker(op Op, step string) error {
 		when := "before"
 		if after {
 			when = "after"
+			if st, _, _ := c.statusOf(id); st < headstorage.DeletedStatusQueued && vstat.KnownSignature(prop, sigBoundChildWindow) {
+				c.excluded = sigBoundChildWindow
+				c.w.Logf("  worker call-out %s(%s): interrupt after the call-out skipped (known finding %s)", call, c.name(id), sigBoundChildWindow)
+				return
+			}
 		}
 		c.w.Logf("  worker call-out %s(%s): interrupt %d %s the tree manager acts", call, c.name(id), op.B, when)
 		c.intErr = c.interrupt(op.B, call, id, step+" [interrupt "+when+" "+call+"]")
@@ -950,6 +964,7 @@ func runInBubble(cs Case) (out vstat.Outcome, err error) {
 	}
 	out.Sig = vstat.HashJSON(cs)
 	out.NonTrivial = c.nontrivial
+	out.Excluded = c.excluded
 	for k := range c.classes {
 		out.Classes = append(out.Classes, k)
 	}
